@@ -1,6 +1,6 @@
 SPECIFICATION Spec
 CONSTANTS
-  Sites <- QuickSites
+  Sites <- AllSites
   Answers <- AnswersAll
   MultiAnswers <- AnswersMulti
   Emit = TRUE
